@@ -221,6 +221,11 @@ def check(ck):
     ck.require(okk, "C19.4", "%s: ProtocolError.__init__(self, url, errcode, errmsg, msg)" % q.fn(fte), "all four arguments, in order",
                "TransportError does not initialise its base with (url, errcode, errmsg, msg): raising it for a non-200 reply fails (TypeError) or "
                "loses the URL / status", q.loc(fte, fte.node))
+    for p_ in fte.params[1:]:
+        st_ = [n for n in gte.live_nodes() if n.kind == "stmt" and isinstance(n.ast, ast.Assign) and any(dump(t_) == "self." + p_ for t_ in n.ast.targets)]
+        okk = len(st_) == 1 and prov.origin(gte, st_[0], st_[0].ast.value) == ("param", p_)
+        ck.require(okk, "C19.4", "%s: self.%s = %s" % (q.fn(fte), p_, p_), "each detail kept under its own name",
+                   "TransportError.%s does not hold the `%s` it was raised with (URL and status are read from these attributes)" % (p_, p_), q.loc(fte, fte.node))
     fmc = prog.func("jsonrpc", "UnixTransport.make_connection")
     gmc = cfg_of(fmc)
     for (rn, val) in q.return_sources(fmc):
